@@ -77,7 +77,9 @@ def open_files(ctx, n, acc3, nsym=None):
             ctx.assume(ctx.eq(flags % 4, 3))
         else:
             ctx.assume(ctx.neg(ctx.eq(flags % 4, 3)))
-        k.files[info] = b"pos:\t" + k.num(pos) + b"\nflags:\t" + k.num(flags, base=8, lead=b"0") + b"\nmnt_id:\t27\nino:\t5\n"
+        # (a descriptor on which the process holds a flock()/POSIX lock has further `lock:` lines of nine tokens each)
+        locked = i == 0 and ctx.flag("fd0_holds_a_lock")
+        k.files[info] = b"pos:\t" + k.num(pos) + b"\nflags:\t" + k.num(flags, base=8, lead=b"0") + b"\nmnt_id:\t27\nino:\t5\n" + (b"lock:\t1: FLOCK  ADVISORY  WRITE 77 08:01:5 0 EOF\n" if locked else b"")
         if kind in ("reg", "deleted", "deleted_stale", "closed_at_fdinfo", "closed_at_fdinfo_esrch"):
             # 'deleted': a file whose name really ends in ' (deleted)' and exists; 'deleted_stale': the kernel's suffix on an unlinked file
             path = f"/data/file{i}" + (" (deleted)" if kind in ("deleted", "deleted_stale") else "")
@@ -166,3 +168,32 @@ def io_counters(ctx, njunk):
     ctx.prove(exc is None and r._fields == ("read_count", "write_count", "read_bytes", "write_bytes", "read_chars", "write_chars") and
               ctx.all([ctx.eq(r.read_count, v["syscr"]), ctx.eq(r.write_count, v["syscw"]), ctx.eq(r.read_bytes, v["read_bytes"]), ctx.eq(r.write_bytes, v["write_bytes"]),
                        ctx.eq(r.read_chars, v["rchar"]), ctx.eq(r.write_chars, v["wchar"])]), "io-six-fields", detail=f"{exc!r}")
+
+
+@harness("C14.fresh_in_oneshot", quick=[dict(what=w) for w in ("num_fds", "open_files")])
+def fresh_in_oneshot(ctx, what):
+    """num_fds() and open_files() reflect the descriptor table at every call, also inside a oneshot() block (the block's cached
+    sources are the stat, status and smaps records, not the descriptor directory): a descriptor opened or closed between two calls
+    of one block shows in the second"""
+    k = simk.Kernel(ctx)
+    simk.system_files(k)
+    simk.full_process(k, 77)
+    change = ctx.choice("change", ["opens-a-file", "closes-a-file", "nothing"])
+    with k.installed():
+        p = psutil.Process(77)
+        with p.oneshot():
+            p.name()
+            a = p.num_fds() if what == "num_fds" else sorted(f.fd for f in p.open_files())
+            if change == "opens-a-file":
+                k.dirs["/proc/77/fd"] = k.dirs["/proc/77/fd"] + ["9"]
+                k.links["/proc/77/fd/9"] = "/data/new"
+                k.stats["/data/new"] = simk.StatResult()
+                k.files["/proc/77/fdinfo/9"] = "pos:\t0\nflags:\t0100000\nmnt_id:\t1\n"
+            elif change == "closes-a-file":
+                k.dirs["/proc/77/fd"] = [x for x in k.dirs["/proc/77/fd"] if x != "3"]
+                del k.links["/proc/77/fd/3"]
+            b = p.num_fds() if what == "num_fds" else sorted(f.fd for f in p.open_files())
+    if what == "num_fds":
+        ctx.prove(a == 3 and b == {"opens-a-file": 4, "closes-a-file": 2, "nothing": 3}[change], "num_fds", detail=f"{a} -> {b} after the process {change}")
+    else:
+        ctx.prove(a == [3] and b == {"opens-a-file": [3, 9], "closes-a-file": [], "nothing": [3]}[change], "exactly-regular-files", detail=f"{a} -> {b} after the process {change}")
